@@ -49,6 +49,9 @@ class deferring_chunked_producer:
             if data is NOT_DONE_YET:
                 return NOT_DONE_YET
             elif data:
+                # a producer may hand us text (tail_f_producer's truncation
+                # notice); the wire format is bytes
+                data = as_bytes(data)
                 s = '%x' % len(data)
                 return as_bytes(s) + b'\r\n' + data + b'\r\n'
             else:
